@@ -11,6 +11,7 @@ import (
 	"reflect"
 	"strconv"
 	"strings"
+	"sync/atomic"
 	"syscall"
 	"time"
 
@@ -455,18 +456,56 @@ func runCase(root, id string, c Case) (res result) {
 		return
 	}
 	kind, delay := ctxSpec(c.Ctx)
+	var ctxEnd atomic.Int64 // the moment the context ended (deadline instant / just before cancel), UnixNano
 	ctx := context.Background()
 	var cancel context.CancelFunc = func() {}
 	limited := false
 	switch {
 	case kind == "deadline" && delay > 0:
+		if isErrThenSleep(c.Timing) && delay < hx.Budget(2*time.Second) {
+			// the clause talks about what the plugin wrote BEFORE the context ended: leave it time to do so (whether
+			// it did is read off the marker file's time stamp, never assumed)
+			delay = hx.Budget(2 * time.Second)
+		}
 		ctx, cancel = context.WithTimeout(ctx, delay)
+		dl, _ := ctx.Deadline()
+		ctxEnd.Store(dl.UnixNano())
 		limited = true
 	case kind == "cancel" && delay > 0:
 		ctx, cancel = context.WithCancel(ctx)
 		limited = true
-		t := time.AfterFunc(delay, cancel)
-		defer t.Stop()
+		inner := cancel
+		if isErrThenSleep(c.Timing) {
+			// cancelled only after the plugin has been SEEN to have finished writing (marker file), plus the delay
+			stop := make(chan struct{})
+			defer close(stop)
+			go func() {
+				t0 := time.Now()
+				for {
+					if _, err := os.Stat(filepath.Join(dir, "printed")); err == nil {
+						break
+					}
+					if time.Since(t0) > hx.Budget(30*time.Second) {
+						break // never seen: the case will not be judged
+					}
+					select {
+					case <-stop:
+						return
+					case <-time.After(5 * time.Millisecond):
+					}
+				}
+				select {
+				case <-stop:
+					return
+				case <-time.After(delay):
+				}
+				ctxEnd.Store(time.Now().UnixNano())
+				inner()
+			}()
+		} else {
+			t := time.AfterFunc(delay, func() { ctxEnd.Store(time.Now().UnixNano()); inner() })
+			defer t.Stop()
+		}
 	case c.Ctx == cCancelled:
 		ctx, cancel = context.WithCancel(ctx)
 		cancel()
@@ -520,8 +559,11 @@ func runCase(root, id string, c Case) (res result) {
 		}
 	}
 	res.ElapsedMS = time.Since(start).Milliseconds()
-	if _, err := os.Stat(filepath.Join(dir, "printed")); err == nil {
-		res.Printed = true
+	// the plugin counts as having printed only if its marker file was created BEFORE the context ended
+	if fi, err := os.Stat(filepath.Join(dir, "printed")); err == nil {
+		if e := ctxEnd.Load(); e != 0 && fi.ModTime().UnixNano() < e {
+			res.Printed = true
+		}
 	}
 	if !got {
 		// release the call: kill the plugin and its descendants, then wait for the goroutine
